@@ -227,6 +227,14 @@ def run_stability(job, ob):
             W = sym("W", (S,))
             solver._evaluate_policy = lambda policy, starting_values=None: W
             solver._extract_policy = lambda *a, **k: new
+            improved = []
+            orig_step = solver._iteration_step
+
+            def step(*a, **k):
+                r_ = orig_step(*a, **k)
+                improved.append(val_of(r_[0]))   # the policy the improvement step of the code under test produced
+                return r_
+            solver._iteration_step = step
             from loguru import logger
             msgs = []
             hid = logger.add(lambda m: msgs.append(str(m)), level="INFO")
@@ -235,7 +243,7 @@ def run_stability(job, ob):
             finally:
                 logger.remove(hid)
             return dict(old=val_of(old), new=val_of(new), it=st.info.iteration, reported=any("Policy converged" in m for m in msgs),
-                        pol=val_of(st.policy), W=val_of(W))
+                        pol=val_of(st.policy), W=val_of(W), improved=improved)
     with shadowed():
         outs = list(ex.explore(run))
     seen = set()
@@ -248,10 +256,12 @@ def run_stability(job, ob):
             ob.fail_harness(f"raised: {o.exc!r}")
             continue
         r = o.value
+        # "an improvement step changes no state's action vector in any component": the step's own result against the incumbent
+        # (the extraction stub's output is only an input to that step: a solver may legitimately keep the incumbent on ties)
         same = True
         for i in range(S):
             for k in range(da):
-                same = zx.land(same, zx.eq(r["old"][i, k], r["new"][i, k]))
+                same = zx.land(same, zx.eq(r["old"][i, k], r["improved"][0][i, k]))
         cexf = lambda m, r=r: dict(kind="stability", S=S, da=da, old=kit.model_array(m, r["old"]), new=kit.model_array(m, r["new"]),
                                    W=kit.model_array(m, r["W"]))
         ob.reach(f"path{pi_}", o.pc)
@@ -264,7 +274,8 @@ def run_stability(job, ob):
             ob.prove(f"continue=>some-change[path{pi_}]", o.pc, zx.lnot(same), cex=cexf, kind="continues whenever some component changed")
         for i in range(S):
             for k in range(da):
-                ob.prove(f"returned-policy-is-latest[path{pi_},{i},{k}]", o.pc, zx.eq(r["pol"][i, k], r["new"][i, k]), cex=cexf)
+                ob.prove(f"returned-policy-is-latest[path{pi_},{i},{k}]", o.pc, zx.eq(r["pol"][i, k], r["improved"][-1][i, k]), cex=cexf,
+                         kind="returned policy is the result of the last improvement step")
     ob.prove("both-outcomes-explored", [], seen == {True, False})
     return ob.result()
 
@@ -282,7 +293,8 @@ def run_greedy(job, ob):
         with symbolic():
             L = h["L"] = kit.Lifted(pb, lift_P=not job.get("linear"))
             pathx.CUR.assume(z3.And(*L.pre))
-            solver.policy = policy_sym(pb, S, da, "OLD")
+            OLD = policy_sym(pb, S, da, "OLD")
+            solver.policy = OLD
             solver.gamma = lift(Fraction(9, 10)) if job.get("linear") else sym("gamma")
             Ws = []
 
@@ -294,7 +306,7 @@ def run_greedy(job, ob):
             solver._evaluate_policy = evaluate
             st = solver.solve(1)
             return dict(vals=val_of(st.values), pol=val_of(st.policy), W=val_of(Ws[0]), Ws=[val_of(w) for w in Ws], g=val_of(solver.gamma)[()],
-                        aspace=np.asarray(pb.action_space))
+                        aspace=np.asarray(pb.action_space), old=val_of(OLD))
     with shadowed():
         outs = list(ex.explore(run))
     for pi_, o in enumerate(outs):
@@ -319,7 +331,7 @@ def run_greedy(job, ob):
                      kind="returned policy is greedy with respect to the returned values",
                      cex=lambda m, i=i, r=r: dict(kind="greedy", state=i, cfg=cfg, T=kit.model_array(m, L.T), R=kit.model_array(m, L.R),
                                                   P=kit.model_array(m, L.P), W=kit.model_array(m, r["W"]), Ws=[kit.model_array(m, w) for w in r["Ws"]],
-                                                  gamma=zx.model_value(m, r["g"])))
+                                                  gamma=zx.model_value(m, r["g"]), old=kit.model_array(m, r["old"])))
     return ob.result()
 
 
@@ -479,6 +491,8 @@ def replay(data):
         pb = Tab(cfg["S"], cfg["A"], cfg["E"], da=cfg["da"], T=T, R=R, P=P)
         s = kit.make_solver("pi", pb, max_batch_size=2, max_eval_iter=1)
         s.gamma = jnp.asarray(g)
+        if c.get("old") is not None:
+            s.policy = jnp.asarray(np.array(c["old"], dtype=np.int32))   # the incumbent policy of the counterexample
         Ws = [np.array(tofloat(w), dtype=float) for w in (c.get("Ws") or [c["W"]])]
         calls = []
 
